@@ -288,4 +288,6 @@ def concurrent(req):
     return {"runs": runs, "reads": len(wanted)}
 
 
-HANDLERS = {"reach": reach, "maintain": maintain, "concurrent": concurrent}
+from impl_C10_lookup import lookup_cosim
+
+HANDLERS = {"reach": reach, "maintain": maintain, "concurrent": concurrent, "lookup_cosim": lookup_cosim}
